@@ -21,7 +21,7 @@ func checkC02(r *Run) {
 			st2 = append(st2, s)
 		}
 	}
-	c.ruleRegisterBeforeWrite(r3, st2)
+	c.ruleRegisterBeforeWrite(r3, st2, "no-sig-origin", "no-fresh-in-stage")
 	c.ruleThreeWaySelect(nil, r3, st2)
 	r3.Floor(3)
 }
